@@ -60,7 +60,8 @@ instance (starts ends : List Int) : Decidable (lensOk starts ends) := by unfold 
 theorem compoundCore_eq (starts ends : List Int) (st : Strand) :
     compoundCore starts ends st =
       if ¬ lensOk starts ends then raise .Location
-      else if (starts.zip ends).all (fun b => decide (b.1 ≤ b.2)) then pure (sortBlocksI st (starts.zip ends))
+      else if (starts.zip ends).all (fun b => decide (0 ≤ b.1) && decide (b.1 ≤ b.2)) then
+        pure (sortBlocksI st (starts.zip ends))
       else raise .InvalidPosition := by
   unfold compoundCore lensOk
   by_cases h : starts.length = ends.length ∧ 0 < starts.length
@@ -76,9 +77,9 @@ theorem zip_ne_nil {starts ends : List Int} (h : lensOk starts ends) : starts.zi
     | nil => simp at h1
     | cons b u => simp
 
-/-- the as-coded acceptance condition (no comparison with 0 anywhere) -/
+/-- the as-coded acceptance condition -/
 def acceptedCompound (starts ends : List Int) (plen : Option Nat) : Prop :=
-  lensOk starts ends ∧ (∀ b ∈ starts.zip ends, b.1 ≤ b.2) ∧
+  lensOk starts ends ∧ (∀ b ∈ starts.zip ends, 0 ≤ b.1 ∧ b.1 ≤ b.2) ∧
     (match plen with | none => True | some n => ∀ b ∈ starts.zip ends, b.2 ≤ (n : Int))
 
 theorem mkCompoundRaw_unfold (starts ends : List Int) (st : Strand) (plen : Option Nat) :
@@ -89,7 +90,7 @@ theorem mkCompoundRaw_unfold (starts ends : List Int) (st : Strand) (plen : Opti
         | some n => (compoundCore starts ends st).bind fun inner =>
             if maxEndI inner > (n : Int) then raise .InvalidPosition else compoundCore starts ends st := rfl
 
-/-- exact characterisation of the constructor, for ALL inputs (negative coordinates included) -/
+/-- exact characterisation of the constructor, for ALL inputs -/
 theorem mkCompoundRaw_eq (starts ends : List Int) (st : Strand) (plen : Option Nat) :
     (acceptedCompound starts ends plen → mkCompoundRaw starts ends st plen = .ok (sortBlocksI st (starts.zip ends))) ∧
     (¬ acceptedCompound starts ends plen → ∃ k, mkCompoundRaw starts ends st plen = .error (.doc k)) := by
@@ -97,8 +98,8 @@ theorem mkCompoundRaw_eq (starts ends : List Int) (st : Strand) (plen : Option N
   unfold acceptedCompound
   by_cases hl : lensOk starts ends
   · rw [if_neg (not_not_intro hl)]
-    by_cases hv : (starts.zip ends).all (fun b => decide (b.1 ≤ b.2)) = true
-    · have hv' : ∀ b ∈ starts.zip ends, b.1 ≤ b.2 := by simpa using hv
+    by_cases hv : (starts.zip ends).all (fun b => decide (0 ≤ b.1) && decide (b.1 ≤ b.2)) = true
+    · have hv' : ∀ b ∈ starts.zip ends, 0 ≤ b.1 ∧ b.1 ≤ b.2 := by simpa using hv
       have hc : compoundCore starts ends st = .ok (sortBlocksI st (starts.zip ends)) := by
         rw [compoundCore_eq, if_neg (not_not_intro hl), if_pos hv]; rfl
       cases plen with
@@ -121,7 +122,7 @@ theorem mkCompoundRaw_eq (starts ends : List Int) (st : Strand) (plen : Option N
           · have hall : ∀ b ∈ starts.zip ends, b.2 ≤ (n : Int) := hmem.mp (hmax.mp (by omega))
             rw [if_neg hm]
             exact ⟨fun _ => rfl, fun h => absurd ⟨hl, hv', hall⟩ h⟩
-    · have hv' : ¬ ∀ b ∈ starts.zip ends, b.1 ≤ b.2 := by simpa using hv
+    · have hv' : ¬ ∀ b ∈ starts.zip ends, 0 ≤ b.1 ∧ b.1 ≤ b.2 := by simpa using hv
       have hc : compoundCore starts ends st = raise .InvalidPosition := by
         rw [compoundCore_eq, if_neg (not_not_intro hl), if_neg hv]
       refine ⟨fun h => absurd h.2.1 hv', fun _ => ?_⟩
@@ -139,22 +140,21 @@ theorem mkCompoundRaw_noInternal (starts ends : List Int) (st : Strand) (plen : 
 
 /-! ### the specification -/
 
-theorem validCompound_iff (starts ends : List Int) (plen : Option Nat)
-    (hnn : ∀ b ∈ starts.zip ends, 0 ≤ b.1) :
+theorem validCompound_iff (starts ends : List Int) (plen : Option Nat) :
     Spec.Validate.validCompound starts ends plen = true ↔ acceptedCompound starts ends plen := by
   unfold Spec.Validate.validCompound acceptedCompound lensOk Spec.Validate.withinParent Spec.Validate.blockOk
   cases plen <;> simp only [Bool.and_eq_true, beq_iff_eq, decide_eq_true_eq, List.all_eq_true] <;>
     constructor <;> intro h
-  · exact ⟨⟨h.1.1.1, h.1.1.2⟩, fun b hb => (h.1.2 b hb).2, trivial⟩
-  · exact ⟨⟨⟨h.1.1, h.1.2⟩, fun b hb => ⟨hnn b hb, h.2.1 b hb⟩⟩, trivial⟩
-  · exact ⟨⟨h.1.1.1, h.1.1.2⟩, fun b hb => (h.1.2 b hb).2, h.2⟩
-  · exact ⟨⟨⟨h.1.1, h.1.2⟩, fun b hb => ⟨hnn b hb, h.2.1 b hb⟩⟩, h.2.2⟩
+  · exact ⟨⟨h.1.1.1, h.1.1.2⟩, h.1.2, trivial⟩
+  · exact ⟨⟨⟨h.1.1, h.1.2⟩, h.2.1⟩, trivial⟩
+  · exact ⟨⟨h.1.1.1, h.1.1.2⟩, h.1.2, h.2⟩
+  · exact ⟨⟨⟨h.1.1, h.1.2⟩, h.2.1⟩, h.2.2⟩
 
-/-- full statement (fails: F-C19g): for ALL `starts ends st plen`.  Proved for non-negative starts. -/
-theorem mkCompoundRaw_spec_partial (starts ends : List Int) (st : Strand) (plen : Option Nat)
-    (hnn : ∀ b ∈ starts.zip ends, 0 ≤ b.1) :
+/-- `CompoundInterval.__init__` meets the specification for ALL `starts ends st plen` (negative starts are refused
+    since 0fcdb58; before that repair this held only for non-negative starts: F-C19g). -/
+theorem mkCompoundRaw_spec (starts ends : List Int) (st : Strand) (plen : Option Nat) :
     Spec.Validate.okMkCompound starts ends st plen (outOf id (mkCompoundRaw starts ends st plen)) = true := by
-  have hv := validCompound_iff starts ends plen hnn
+  have hv := validCompound_iff starts ends plen
   obtain ⟨hacc, hrej⟩ := mkCompoundRaw_eq starts ends st plen
   by_cases ha : acceptedCompound starts ends plen
   · rw [hacc ha]
@@ -171,7 +171,7 @@ theorem mkCompoundRaw_spec_partial (starts ends : List Int) (st : Strand) (plen 
     have h2 : (sortBlocksI st (starts.zip ends)).all Spec.Validate.blockOk = true := by
       rw [all_perm hperm]
       simp only [List.all_eq_true, Spec.Validate.blockOk, Bool.and_eq_true, decide_eq_true_eq]
-      exact fun b hb => ⟨hnn b hb, ha.2.1 b hb⟩
+      exact ha.2.1
     have h3 := sortedI_of_pairwise st _ (sortBlocksI_pairwise st (starts.zip ends))
     have h4 : (sortBlocksI st (starts.zip ends)).isPerm (starts.zip ends) = true := List.isPerm_iff.mpr hperm
     have h5 : Spec.Validate.withinParent plen (sortBlocksI st (starts.zip ends)) = true := by
@@ -190,14 +190,12 @@ theorem mkCompoundRaw_spec_partial (starts ends : List Int) (st : Strand) (plen 
       rw [Bool.eq_false_iff]; exact fun h => ha (hv.mp h)
     simp [outOf, Spec.Validate.okMkCompound, hvf]
 
-/-- F-C19g: a location with a negative start IS constructed (the stored blocks are `[(-2, 3), (5, 7)]`). -/
-theorem mkCompoundRaw_negative_witness :
-    mkCompoundRaw [-2, 5] [3, 7] .plus none = .ok [(-2, 3), (5, 7)] := by
-  have h := (mkCompoundRaw_eq [-2, 5] [3, 7] .plus none).1
-    ⟨⟨rfl, by decide⟩, by decide, trivial⟩
-  rw [h]
-  have hs : sortBlocksI .plus ([-2, 5].zip [3, 7]) = [(-2, 3), (5, 7)] :=
-    List.mergeSort_of_pairwise (by decide)
-  rw [hs]
+/-- regression fact (F-C19g, repaired by 0fcdb58): `CompoundInterval([-2,5],[3,7],+)` is refused -/
+theorem mkCompoundRaw_negative_refused :
+    ∃ k, mkCompoundRaw [-2, 5] [3, 7] .plus none = .error (.doc k) :=
+  (mkCompoundRaw_eq [-2, 5] [3, 7] .plus none).2 (by
+    intro h
+    have := h.2.1 (-2, 3) (by decide)
+    omega)
 
 end BioCantor.Proofs.Val
